@@ -5,9 +5,12 @@ Property theorems (DESIGN.md §6 C03).  Models: `FfcxModel/IR/Perm.lean` (permut
 Helper lemmas: `FfcxProofs/Lemmas/Geom.lean`, `FfcxProofs/Lemmas/GeomIndep.lean`.
 
 Theorems: `perm_group_interval/triangle/quad`, `perm_compose` (+ `perm_compose_order_matters`),
-`aligning_code_exists`, `aligned_invariance`, `table_access_spec`, `drop_perm_axis`,
-`flag_false_independent`.  All are proved at full strength over exact arithmetic
-(floating-point rounding is outside every theorem, DESIGN §5).
+`aligning_code_exists`, `vertex_aligned_iff`, `facet_sum_change_of_variables`, `table_access_spec`
+(+ `table_access_spec_noperm`), `aligned_table_read`, `aligned_invariance_partial`, `drop_perm_axis`,
+`flag_false_independent`.  All but `aligned_invariance_partial` are proved at full strength over
+exact arithmetic (floating-point rounding is outside every theorem, DESIGN §5);
+`aligned_invariance_partial` carries two explicit hypotheses about things the model does not
+contain (the cell geometry `x` and the element's push-forward), see its docstring.
 -/
 import FfcxProofs.Lemmas.Geom
 import FfcxProofs.Lemmas.GeomIndep
@@ -202,21 +205,21 @@ theorem aligning_code_exists :
     · simp only [alignsQ, List.all_eq_true, decide_eq_true_eq]; intro i _
       rw [← hs]; exact quad_code_align N hN _
 
-/-! ## Invariance of the facet sum under aligned codes -/
+/-! ## Change of variables in the facet sum -/
 
-/-- `Σ_q w_q · g(x_q⁺, x_q⁻)` over paired lists (weights, '+' points, '-' points). -/
+/-- `Σ_q w_q · g(a_q, b_q)` over paired lists (weights, '+' data, '-' data). -/
 def facetSum {R P : Type} [Add R] [Mul R] [OfNat R 0] (g : P → P → R) :
     List R → List P → List P → R
   | w :: ws, a :: as, b :: bs => w * g a b + facetSum g ws as bs
   | _, _, _ => 0
 
-/-- **Aligned invariance.** `X` are the reference-facet quadrature points, `Ψ` the common
-(numbering independent) physical parametrisation of the shared facet.  A numbering of the two
-cells gives each side `r` a facet-to-physical map `Φ_r` and a code whose point map is `π_r`;
-the codes are *aligned* when `Φ_r (π_r X_q) = Ψ X_q` for every quadrature point on both sides.
-Then the facet sum of any integrand `g` of the two sides' physical points, with the weights paired
-to the points by index `q`, is the same for any two numberings with their aligned codes. -/
-theorem aligned_invariance {R P Q : Type} [Add R] [Mul R] [OfNat R 0]
+/-- **Change of variables only** (this was called `aligned_invariance` before the audit of DESIGN
+§12.6; it *assumes* that the permuted point maps of both numberings agree with a common
+parametrisation and contains no table, no code and no dof).  If `Φ_r (π_r X_q) = Ψ X_q` for every
+quadrature point on both sides of both numberings, the two facet sums are the same term.
+The statement that derives these hypotheses from the model's tables and codes is
+`aligned_invariance_partial` below. -/
+theorem facet_sum_change_of_variables {R P Q : Type} [Add R] [Mul R] [OfNat R 0]
     (g : P → P → R) (ws : List R) (X : List Q) (Ψ : Q → P)
     (Φp Φm Φp' Φm' : Q → P) (πp πm πp' πm' : Q → Q)
     (hp : ∀ x, x ∈ X → Φp (πp x) = Ψ x) (hm : ∀ x, x ∈ X → Φm (πm x) = Ψ x)
@@ -229,9 +232,9 @@ theorem aligned_invariance {R P Q : Type} [Add R] [Mul R] [OfNat R 0]
   have e4 : X.map (fun x => Φm' (πm' x)) = X.map Ψ := List.map_congr_left hm'
   rw [e1, e2, e3, e4]
 
-/-- Non-vacuity of `aligned_invariance`: a triangle facet seen by the '-' side with vertices 0,1
-swapped (`τ = [1,0,2]`), aligned by code 3; `Ψ` the identity, three points, `g` a non-symmetric
-integrand. -/
+/-- Non-vacuity of `facet_sum_change_of_variables`: a triangle facet seen by the '-' side with
+vertices 0,1 swapped (`τ = [1,0,2]`), aligned by code 3; `Ψ` the identity, three points, `g` a
+non-symmetric integrand. -/
 example :
     let X : List (Rat × Rat) := [(1/6, 1/6), (2/3, 1/6), (1/6, 2/3)]
     facetSum (fun a b : Rat × Rat => a.1 * b.2 + 2 * b.1) [1/6, 1/6, 1/6]
@@ -246,8 +249,8 @@ built by the nested `for rot: for ref:` loops, read through `table_access` with 
 permuted/non-uniform/non-piecewise on side `minus` whose code is `N = quadrature_permutation[r]`
 (`N < numCodes`), yields the basis function `d` at the entity map of the point permuted with
 `rotations = N / 2`, `reflections = N % 2`. -/
-theorem table_access_spec {P V : Type} [Inhabited V] (t : FacetType) (ht : t.numRef = 2)
-    (perm : Nat → Nat → P → P) (F : Nat → P → P) (phi : Nat → P → V) (nent ndof : Nat)
+theorem table_access_spec {P C V : Type} [Inhabited V] (t : FacetType) (ht : t.numRef = 2)
+    (perm : Nat → Nat → P → P) (F : Nat → P → C) (phi : Nat → C → V) (nent ndof : Nat)
     (X : List P) (dP : P) (minus : Bool) (qperm : List Nat) (e q d : Nat)
     (hN : qperm.getD (if minus then 1 else 0) 0 < t.numCodes)
     (he : e < nent) (hq : q < X.length) (hd : d < ndof) :
@@ -278,6 +281,369 @@ example :
         (fun e p => (p.1 + e, p.2)) (fun d p => if d = 0 then p.1 else p.2) 2 2
         [(1/4, 1/2), (1/8, 1/8)]) ⟨true, false, false⟩ true [0, 3] 1 0 0 = 5/4 := by
   decide +kernel
+
+/-- One-row tables (the branches of `build_optimized_tables` without a permutation loop: exterior
+facets, vertices, interval cells — `t = .point`): row 0 is read whatever the codes, and holds the
+basis function at the entity map of the (un-permuted) point. -/
+theorem table_access_spec_noperm {P C V : Type} [Inhabited V]
+    (perm : Nat → Nat → P → P) (hperm : ∀ p, perm 0 0 p = p)
+    (F : Nat → P → C) (phi : Nat → C → V) (nent ndof : Nat)
+    (X : List P) (dP : P) (minus : Bool) (qperm : List Nat) (e q d : Nat)
+    (he : e < nent) (hq : q < X.length) (hd : d < ndof) :
+    tableAccess (buildTable .point perm F phi nent ndof X) ⟨false, false, false⟩ minus qperm e q d
+      = phi d (F e (X.getD q dP)) := by
+  simp [tableAccess, tableSubscripts, Table.get, buildTable, permRows, FacetType.numRot,
+    FacetType.numRef, he, hq, hd, hperm, List.getD_eq_getElem?_getD]
+
+/-! ## Vertex matching determines the aligning code -/
+
+/-- **`vertex_aligned_iff`.** How an aligning code is found in practice: by matching the
+reference *vertices* only (`alignsI/T/Q N τ`: `T_τ (permute_N vᵢ) = vᵢ` for the 2/3/4 reference
+vertices, over `Rat`).  For a facet symmetry `τ` and a code in range this finite test is equivalent
+to alignment at **all** points of any commutative ring. -/
+theorem vertex_aligned_iff :
+    (∀ τ, τ ∈ S2 → ∀ N, N < 2 → (alignsI N τ = true ↔
+      ∀ {R : Type} [Lean.Grind.CommRing R] (x : R), affI τ (permuteInterval (codeRef N) x) = x)) ∧
+    (∀ τ, τ ∈ S3 → ∀ N, N < 6 → (alignsT N τ = true ↔
+      ∀ {R : Type} [Lean.Grind.CommRing R] (p : R × R),
+        affT τ (permuteTriangle (codeRef N) (codeRot N) p) = p)) ∧
+    (∀ τ, τ ∈ D4 → ∀ N, N < 8 → (alignsQ N τ = true ↔
+      ∀ {R : Type} [Lean.Grind.CommRing R] (p : R × R),
+        affQ τ (permuteQuad (codeRef N) (codeRot N) p) = p)) := by
+  refine ⟨?_, ?_, ?_⟩
+  · obtain ⟨_, _, hsur, huniq⟩ := codesBijective_spec align_bij_interval
+    intro τ hτ N hN
+    constructor
+    · intro h
+      obtain ⟨N0, hN0, hs⟩ := hsur τ hτ
+      have h0 : alignsI N0 τ = true := by
+        simp only [alignsI, List.all_eq_true, decide_eq_true_eq]; intro i _
+        rw [← hs]; exact interval_code_align N0 hN0 _
+      have : N = N0 := huniq τ hτ N N0 hN hN0 h h0
+      subst this
+      intro R _ x; rw [← hs]; exact interval_code_align N hN x
+    · intro h
+      simp only [alignsI, List.all_eq_true, decide_eq_true_eq]; intro i _; exact h _
+  · obtain ⟨_, _, hsur, huniq⟩ := codesBijective_spec align_bij_triangle
+    intro τ hτ N hN
+    constructor
+    · intro h
+      obtain ⟨N0, hN0, hs⟩ := hsur τ hτ
+      have h0 : alignsT N0 τ = true := by
+        simp only [alignsT, List.all_eq_true, decide_eq_true_eq]; intro i _
+        rw [← hs]; exact triangle_code_align N0 hN0 _
+      have : N = N0 := huniq τ hτ N N0 hN hN0 h h0
+      subst this
+      intro R _ p; rw [← hs]; exact triangle_code_align N hN p
+    · intro h
+      simp only [alignsT, List.all_eq_true, decide_eq_true_eq]; intro i _; exact h _
+  · obtain ⟨_, _, hsur, huniq⟩ := codesBijective_spec align_bij_quad
+    intro τ hτ N hN
+    constructor
+    · intro h
+      obtain ⟨N0, hN0, hs⟩ := hsur τ hτ
+      have h0 : alignsQ N0 τ = true := by
+        simp only [alignsQ, List.all_eq_true, decide_eq_true_eq]; intro i _
+        rw [← hs]; exact quad_code_align N0 hN0 _
+      have : N = N0 := huniq τ hτ N N0 hN hN0 h h0
+      subst this
+      intro R _ p; rw [← hs]; exact quad_code_align N hN p
+    · intro h
+      simp only [alignsQ, List.all_eq_true, decide_eq_true_eq]; intro i _; exact h _
+
+/-! ## Numbering invariance over the model's tables -/
+
+/-- One cell adjacent to the shared facet, in one local vertex numbering: everything
+`build_optimized_tables` tabulates from (`F`, `phi`, sizes), the local index `e` of the shared facet
+(`entity_local_index[r]`), and the two things the model does not contain — the geometry `x` of the
+cell in this numbering and the bookkeeping of which physical basis function a reference dof is. -/
+structure SideView (P C Ph V : Type) where
+  /-- reference-entity maps: local facet `e`, reference-facet point ↦ reference-cell point -/
+  F : Nat → P → C
+  /-- reference basis functions, `phi d` = dof `d` -/
+  phi : Nat → C → V
+  nent : Nat
+  ndof : Nat
+  /-- local index of the shared facet in this numbering -/
+  e : Nat
+  /-- reference cell → physical space, for this numbering of the cell's vertices -/
+  x : C → Ph
+  /-- the vertex relabelling of the reference facet through which this side sees the shared facet -/
+  τ : List Nat
+  /-- reference dof `d` of this numbering is the physical basis function `dofOf d` -/
+  dofOf : Nat → Nat
+
+/-- What "two local numberings of the same physical cell, related by a facet symmetry" means for one
+side, relative to numbering-independent data: the common parametrisation `Ψ` of the shared facet and
+the physical basis functions `ψ k` of the cell.
+* `geom` — **facet symmetry**: the side's own parametrisation of the facet (reference facet →
+  reference cell by `F e`, → physical space by `x`) is the common one after relabelling the facet's
+  vertices by `τ ∈ G` (both are affine parametrisations of the same physical simplex/parallelogram
+  that send vertices to vertices);
+* `elem` — **element hypothesis**: reference basis function `d` of this numbering, pushed forward
+  by `x`, is the physical basis function `dofOf d` (for affine-mapped Lagrange elements `dofOf` is
+  the dof permutation induced by the vertex renumbering; neither Basix' basis functions nor the
+  push-forward are part of the model — this is why the theorem below is `_partial`). -/
+structure SideView.Sees {P C Ph V : Type} (s : SideView P C Ph V) (aff : List Nat → P → P)
+    (G : List (List Nat)) (Ψ : P → Ph) (ψ : Nat → Ph → V) : Prop where
+  facet_lt : s.e < s.nent
+  sym_mem : s.τ ∈ G
+  geom : ∀ p, s.x (s.F s.e p) = Ψ (aff s.τ p)
+  elem : ∀ d, d < s.ndof → ∀ c, s.phi d c = ψ (s.dofOf d) (s.x c)
+
+/-- the permuted table `build_optimized_tables` builds for this side -/
+def SideView.table {P C Ph V : Type} (s : SideView P C Ph V) (t : FacetType)
+    (perm : Nat → Nat → P → P) (X : List P) : Table V :=
+  buildTable t perm s.F s.phi s.nent s.ndof X
+
+/-- **`aligned_table_read`** (one side).  If the side sees the facet through `τ` and its code
+`N = quadrature_permutation[r]` undoes `τ` at all points, then what the kernel reads from the
+side's permuted table through `table_access` — row `N`, entity `entity_local_index[r]`, point `q`,
+dof `d` — is the *physical* basis function `dofOf d` at the *common* physical point `Ψ X_q`; and
+that row was tabulated at `reflectʳᵉᶠ(rotateʳᵒᵗ X_q)` with `rot = N / 2`, `ref = N % 2`
+(`table_access_spec`; for the three facet types `perm_compose` spells the loops out). -/
+theorem aligned_table_read {P C Ph V : Type} [Inhabited V] (t : FacetType) (ht : t.numRef = 2)
+    (perm : Nat → Nat → P → P) (aff : List Nat → P → P) (G : List (List Nat))
+    (Ψ : P → Ph) (ψ : Nat → Ph → V) (s : SideView P C Ph V) (hs : s.Sees aff G Ψ ψ)
+    (X : List P) (dP : P) (minus : Bool) (qperm : List Nat) (q d : Nat)
+    (hN : qperm.getD (if minus then 1 else 0) 0 < t.numCodes)
+    (halign : ∀ p, aff s.τ (perm (codeRef (qperm.getD (if minus then 1 else 0) 0))
+      (codeRot (qperm.getD (if minus then 1 else 0) 0)) p) = p)
+    (hq : q < X.length) (hd : d < s.ndof) :
+    let N := qperm.getD (if minus then 1 else 0) 0
+    tableAccess (s.table t perm X) ⟨true, false, false⟩ minus qperm s.e q d
+        = s.phi d (s.F s.e (perm (codeRef N) (codeRot N) (X.getD q dP))) ∧
+    tableAccess (s.table t perm X) ⟨true, false, false⟩ minus qperm s.e q d
+        = ψ (s.dofOf d) (Ψ (X.getD q dP)) := by
+  intro N
+  have h1 := table_access_spec t ht perm s.F s.phi s.nent s.ndof X dP minus qperm s.e q d hN
+    hs.facet_lt hq hd
+  refine ⟨h1, ?_⟩
+  simp only [SideView.table]
+  rw [h1, hs.elem d hd, hs.geom, halign]
+
+/-- values the kernel reads at point `q` for the dofs `ds` of one side -/
+def readDofs {V : Type} [Inhabited V] (T : Table V) (minus : Bool) (qperm : List Nat)
+    (e q : Nat) (ds : List Nat) : List V :=
+  ds.map (fun d => tableAccess T ⟨true, false, false⟩ minus qperm e q d)
+
+/-- The interior-facet sum **as the kernel computes it**: `Σ_q w_q · g(v⁺_q, v⁻_q)` where `v⁺_q`
+(`v⁻_q`) are the values read through `tableAccess` from the '+' ('-') table at quadrature point `q`
+for the dofs `is` (`js`), with the codes `qperm = quadrature_permutation` and the local facet
+indices `(ep, em) = entity_local_index`.  `g` is any integrand of these values (an entry
+`A[i][j]` of a bilinear form: `is = [i]`, `js = [j]`; coefficients: all their dofs). -/
+def kernelFacetSum {S V : Type} [Inhabited V] [Add S] [Mul S] [OfNat S 0]
+    (g : List V → List V → S) (ws : List S) (nq : Nat) (Tp Tm : Table V) (qperm : List Nat)
+    (ep em : Nat) (is js : List Nat) : S :=
+  facetSum g ws ((List.range nq).map (fun q => readDofs Tp false qperm ep q is))
+    ((List.range nq).map (fun q => readDofs Tm true qperm em q js))
+
+/-- the numbering-independent value: `Σ_q w_q · g(ψ⁺_k(Ψ X_q))_{k∈ks}, (ψ⁻_l(Ψ X_q))_{l∈ls})` -/
+def physicalFacetSum {S V P Ph : Type} [Add S] [Mul S] [OfNat S 0]
+    (g : List V → List V → S) (ws : List S) (X : List P) (Ψ : P → Ph) (ψp ψm : Nat → Ph → V)
+    (ks ls : List Nat) : S :=
+  facetSum g ws (X.map (fun x => ks.map (fun k => ψp k (Ψ x))))
+    (X.map (fun x => ls.map (fun l => ψm l (Ψ x))))
+
+theorem range_map_getD {α β : Type} (X : List α) (dP : α) (f : α → β) :
+    (List.range X.length).map (fun q => f (X.getD q dP)) = X.map f := by
+  apply List.ext_getElem
+  · simp
+  · intro i h1 h2
+    simp only [List.length_map, List.length_range] at h1
+    simp [List.getD_eq_getElem?_getD, h1]
+
+/-- A local numbering of the two cells: the two sides and the codes handed to the kernel. -/
+structure Numbering (P C Ph V : Type) where
+  plus : SideView P C Ph V
+  minus : SideView P C Ph V
+  /-- `quadrature_permutation` -/
+  qperm : List Nat
+
+/-- The numbering is admissible for the facet type: both sides see the common facet through a
+symmetry of the reference facet, and each code is in range and matches the reference **vertices**
+(`aligns N τ`, the finite test of `vertex_aligned_iff`). -/
+structure Numbering.Aligned {P C Ph V : Type} (n : Numbering P C Ph V) (t : FacetType)
+    (aff : List Nat → P → P) (G : List (List Nat)) (aligns : Nat → List Nat → Bool)
+    (Ψ : P → Ph) (ψp ψm : Nat → Ph → V) : Prop where
+  plus_sees : n.plus.Sees aff G Ψ ψp
+  minus_sees : n.minus.Sees aff G Ψ ψm
+  plus_code : n.qperm.getD 0 0 < t.numCodes ∧ aligns (n.qperm.getD 0 0) n.plus.τ = true
+  minus_code : n.qperm.getD 1 0 < t.numCodes ∧ aligns (n.qperm.getD 1 0) n.minus.τ = true
+
+/-- the kernel's facet sum in numbering `n` -/
+def Numbering.kernelSum {P C Ph V S : Type} [Inhabited V] [Add S] [Mul S] [OfNat S 0]
+    (n : Numbering P C Ph V) (t : FacetType) (perm : Nat → Nat → P → P)
+    (g : List V → List V → S) (ws : List S) (X : List P) (is js : List Nat) : S :=
+  kernelFacetSum g ws X.length (n.plus.table t perm X) (n.minus.table t perm X) n.qperm
+    n.plus.e n.minus.e is js
+
+/-- The statement of numbering invariance for one facet type (`t`, its point type `P`, the model's
+permutation `perm`, the affine maps `aff` of the vertex relabellings `G`, the vertex test `aligns`):
+for **any** two admissible numberings `a`, `b` of the same two physical cells (same `Ψ`, `ψ⁺`, `ψ⁻`),
+any rule `(X, ws)`, any integrand `g`, and dof lists that denote the same physical basis functions in
+the two numberings, the kernel's facet sums agree — and both equal the numbering-independent
+`physicalFacetSum`. -/
+def NumberingInvariant (t : FacetType) (P : Type) (perm : Nat → Nat → P → P)
+    (aff : List Nat → P → P) (G : List (List Nat)) (aligns : Nat → List Nat → Bool) : Prop :=
+  ∀ {C Ph V S : Type} [Inhabited V] [Add S] [Mul S] [OfNat S 0]
+    (Ψ : P → Ph) (ψp ψm : Nat → Ph → V) (X : List P) (ws : List S) (g : List V → List V → S)
+    (a b : Numbering P C Ph V),
+    a.Aligned t aff G aligns Ψ ψp ψm → b.Aligned t aff G aligns Ψ ψp ψm →
+    ∀ (is js is' js' : List Nat),
+      (∀ i ∈ is, i < a.plus.ndof) → (∀ j ∈ js, j < a.minus.ndof) →
+      (∀ i ∈ is', i < b.plus.ndof) → (∀ j ∈ js', j < b.minus.ndof) →
+      is.map a.plus.dofOf = is'.map b.plus.dofOf → js.map a.minus.dofOf = js'.map b.minus.dofOf →
+      a.kernelSum t perm g ws X is js = b.kernelSum t perm g ws X is' js' ∧
+      a.kernelSum t perm g ws X is js =
+        physicalFacetSum g ws X Ψ ψp ψm (is.map a.plus.dofOf) (js.map a.minus.dofOf)
+
+/-- The kernel's sum of one admissible numbering is the physical sum (generic in the facet type;
+`hal` turns the vertex test into alignment at all points). -/
+theorem kernelSum_eq_physical {P C Ph V S : Type} [Inhabited V] [Add S] [Mul S] [OfNat S 0]
+    (t : FacetType) (ht : t.numRef = 2) (dP : P) (perm : Nat → Nat → P → P) (aff : List Nat → P → P)
+    (G : List (List Nat)) (aligns : Nat → List Nat → Bool)
+    (hal : ∀ τ, τ ∈ G → ∀ N, N < t.numCodes → aligns N τ = true →
+      ∀ p, aff τ (perm (codeRef N) (codeRot N) p) = p)
+    (Ψ : P → Ph) (ψp ψm : Nat → Ph → V) (X : List P) (ws : List S) (g : List V → List V → S)
+    (a : Numbering P C Ph V) (ha : a.Aligned t aff G aligns Ψ ψp ψm) (is js : List Nat)
+    (his : ∀ i ∈ is, i < a.plus.ndof) (hjs : ∀ j ∈ js, j < a.minus.ndof) :
+    a.kernelSum t perm g ws X is js =
+      physicalFacetSum g ws X Ψ ψp ψm (is.map a.plus.dofOf) (js.map a.minus.dofOf) := by
+  have hp : (List.range X.length).map (fun q => readDofs (a.plus.table t perm X) false a.qperm a.plus.e q is)
+      = X.map (fun x => (is.map a.plus.dofOf).map (fun k => ψp k (Ψ x))) := by
+    rw [← range_map_getD X dP]
+    apply List.map_congr_left
+    intro q hq
+    simp only [List.mem_range] at hq
+    simp only [readDofs, List.map_map]
+    apply List.map_congr_left
+    intro d hd
+    exact (aligned_table_read t ht perm aff G Ψ ψp a.plus ha.plus_sees X dP false a.qperm q d
+      ha.plus_code.1 (hal _ ha.plus_sees.sym_mem _ ha.plus_code.1 ha.plus_code.2) hq (his d hd)).2
+  have hm : (List.range X.length).map (fun q => readDofs (a.minus.table t perm X) true a.qperm a.minus.e q js)
+      = X.map (fun x => (js.map a.minus.dofOf).map (fun k => ψm k (Ψ x))) := by
+    rw [← range_map_getD X dP]
+    apply List.map_congr_left
+    intro q hq
+    simp only [List.mem_range] at hq
+    simp only [readDofs, List.map_map]
+    apply List.map_congr_left
+    intro d hd
+    exact (aligned_table_read t ht perm aff G Ψ ψm a.minus ha.minus_sees X dP true a.qperm q d
+      ha.minus_code.1 (hal _ ha.minus_sees.sym_mem _ ha.minus_code.1 ha.minus_code.2) hq (hjs d hd)).2
+  simp only [Numbering.kernelSum, kernelFacetSum, physicalFacetSum, hp, hm]
+
+theorem numberingInvariant_of {P : Type} (t : FacetType) (ht : t.numRef = 2) (dP : P)
+    (perm : Nat → Nat → P → P) (aff : List Nat → P → P)
+    (G : List (List Nat)) (aligns : Nat → List Nat → Bool)
+    (hal : ∀ τ, τ ∈ G → ∀ N, N < t.numCodes → aligns N τ = true →
+      ∀ p, aff τ (perm (codeRef N) (codeRot N) p) = p) :
+    NumberingInvariant t P perm aff G aligns := by
+  intro C Ph V S _ _ _ _ Ψ ψp ψm X ws g a b ha hb is js is' js' his hjs his' hjs' ei ej
+  have e1 := kernelSum_eq_physical t ht dP perm aff G aligns hal Ψ ψp ψm X ws g a ha is js his hjs
+  have e2 := kernelSum_eq_physical t ht dP perm aff G aligns hal Ψ ψp ψm X ws g b hb is' js' his' hjs'
+  exact ⟨by rw [e1, e2, ei, ej], e1⟩
+
+/-- **`aligned_invariance_partial`** — numbering invariance of the interior-facet sum, over the
+model's own objects.  For each facet type (interval / triangle / quadrilateral facets, i.e.
+triangle+quadrilateral / tetrahedron / hexahedron cells), over any commutative ring of coordinates:
+take two local numberings `a`, `b` of the same two physical cells sharing a facet.  In each
+numbering each side `r` has its own reference-entity maps `F`, basis functions `phi`, local facet
+index `e`, sees the shared facet through a symmetry `τ_r` of the reference facet
+(`SideView.Sees.geom`), and is handed the code `quadrature_permutation[r] < numCodes` that matches
+the reference **vertices** under `τ_r` (`alignsI/T/Q`; exists and is unique by
+`aligning_code_exists`, and vertex matching is alignment at all points by `vertex_aligned_iff`).
+Then the facet sum the kernel computes from `tableAccess (buildTable …)` — rows selected by the
+codes, entities by the local facet indices, the `for rot: for ref:` row order of `buildTable`,
+`rot = N / 2` rotations applied before `ref = N % 2` reflections — is the same in both numberings
+(for dof lists naming the same physical basis functions), and equals the numbering-independent
+`physicalFacetSum`.  The point-map identities `Φ_r (π_r X_q) = Ψ X_q` that
+`facet_sum_change_of_variables` assumes are *derived* here, from `τ_r` and the vertex-matched code.
+
+**Why `_partial`.** Full statement: *for every element FFCx accepts and every pair of numberings of
+two cells of a mesh, the interior-facet tensors agree up to the induced dof renumbering* — with
+`SideView.Sees.geom` derived from the vertex coordinates and `SideView.Sees.elem` from the
+definition of the element.  The model contains neither cell geometries nor Basix elements, so both
+are explicit hypotheses: `geom` (the two parametrisations differ by a facet symmetry) and `elem`
+(reference basis function `d` pushes forward to physical basis function `dofOf d`; for non-affine
+push-forwards — Piola maps, non-affine cells — `V`-valued `ψ` must already include the
+push-forward).  Integrand factors that are not table reads (Jacobians, normals, weights' scaling)
+are inside `g`/`ws` and must themselves be numbering independent; tables whose permutation axis
+was dropped are covered by `drop_perm_axis`, kernels flagged false by `flag_false_independent`.
+What remains is decided by the numbering runs of `harness/props/c03.py`. -/
+theorem aligned_invariance_partial {R : Type} [Lean.Grind.CommRing R] :
+    NumberingInvariant .interval R (fun ref _ => permuteInterval ref) affI S2 alignsI ∧
+    NumberingInvariant .triangle (R × R) permuteTriangle affT S3 alignsT ∧
+    NumberingInvariant .quadrilateral (R × R) permuteQuad affQ D4 alignsQ := by
+  obtain ⟨hI, hT, hQ⟩ := vertex_aligned_iff
+  refine ⟨?_, ?_, ?_⟩
+  · exact numberingInvariant_of .interval rfl 0 _ _ _ _
+      (fun τ hτ N hN h p => (hI τ hτ N hN).mp h p)
+  · exact numberingInvariant_of .triangle rfl (0, 0) _ _ _ _
+      (fun τ hτ N hN h p => (hT τ hτ N hN).mp h p)
+  · exact numberingInvariant_of .quadrilateral rfl (0, 0) _ _ _ _
+      (fun τ hτ N hN h p => (hQ τ hτ N hN).mp h p)
+
+/-! Non-vacuity of `aligned_invariance_partial` (triangle facet, `R = Rat`). -/
+section Example
+
+def exΨ : Rat × Rat → Rat × Rat := fun p => p
+def exψp : Nat → Rat × Rat → Rat := fun k x => if k = 0 then x.1 else x.2 + 1
+def exψm : Nat → Rat × Rat → Rat := fun k x => if k = 0 then 2 * x.1 + x.2 else x.2
+
+/-- reference numbering: both sides see the facet through the identity, codes `[0, 0]`,
+local facet indices 1 ('+') and 0 ('-') -/
+def exA : Numbering (Rat × Rat) (Rat × Rat) (Rat × Rat) Rat where
+  plus := { F := fun e p => (p.1 + e, p.2), phi := fun d c => exψp d (c.1 - 1, c.2), nent := 4, ndof := 2,
+            e := 1, x := fun c => (c.1 - 1, c.2), τ := [0, 1, 2], dofOf := fun d => d }
+  minus := { F := fun e p => (p.1 + e, p.2), phi := fun d c => exψm d c, nent := 4, ndof := 2,
+             e := 0, x := fun c => c, τ := [0, 1, 2], dofOf := fun d => d }
+  qperm := [0, 0]
+
+/-- the '-' cell renumbered: it now sees the facet with vertices 0 and 1 swapped (`τ = [1,0,2]`) as
+its local facet 2, its two dofs are exchanged, and the vertex-matched code is 3 -/
+def exB : Numbering (Rat × Rat) (Rat × Rat) (Rat × Rat) Rat where
+  plus := exA.plus
+  minus := { F := fun e p => (p.1 + e, p.2), phi := fun d c => exψm (1 - d) (affT [1, 0, 2] (c.1 - 2, c.2)),
+             nent := 4, ndof := 2, e := 2, x := fun c => affT [1, 0, 2] (c.1 - 2, c.2), τ := [1, 0, 2],
+             dofOf := fun d => 1 - d }
+  qperm := [0, 3]
+
+theorem exA_aligned : exA.Aligned .triangle affT S3 alignsT exΨ exψp exψm where
+  plus_sees := ⟨by decide, by decide,
+    by intro p; simp [exA, exΨ, affT, vT]; constructor <;> grind, fun d _ c => rfl⟩
+  minus_sees := ⟨by decide, by decide,
+    by intro p; simp [exA, exΨ, affT, vT]; constructor <;> grind, fun d _ c => rfl⟩
+  plus_code := by decide +kernel
+  minus_code := by decide +kernel
+
+theorem exB_aligned : exB.Aligned .triangle affT S3 alignsT exΨ exψp exψm where
+  plus_sees := exA_aligned.plus_sees
+  minus_sees := ⟨by decide, by decide,
+    by intro p; have h : p.1 + 2 - 2 = p.1 := by grind
+       simp [exB, exΨ, h], fun d _ c => rfl⟩
+  plus_code := by decide +kernel
+  minus_code := by decide +kernel
+
+/-- the hypotheses are satisfiable, the conclusion is obtained from the theorem (test dofs `[0,1]`
+on '+', trial dof 0 of the reference numbering = dof 1 of the renumbered '-' cell), the common
+value is not trivial, and with the wrong code (0 instead of 3) on the renumbered side the kernel's
+sum is a different number -/
+example :
+    let X : List (Rat × Rat) := [(1/6, 1/6), (2/3, 1/6), (1/6, 2/3)]
+    let g : List Rat → List Rat → Rat := fun a b => a.getD 0 0 * b.getD 0 0 + 3 * a.getD 1 0
+    exA.kernelSum .triangle permuteTriangle g [1/6, 1/3, 1/2] X [0, 1] [0] =
+      exB.kernelSum .triangle permuteTriangle g [1/6, 1/3, 1/2] X [0, 1] [1] ∧
+    exB.kernelSum .triangle permuteTriangle g [1/6, 1/3, 1/2] X [0, 1] [1] = 337/72 ∧
+    ({ exB with qperm := [0, 0] } : Numbering _ _ _ _).kernelSum .triangle permuteTriangle g
+      [1/6, 1/3, 1/2] X [0, 1] [1] = 323/72 := by
+  intro X g
+  refine ⟨((aligned_invariance_partial (R := Rat)).2.1 exΨ exψp exψm X [1/6, 1/3, 1/2] g exA exB
+    exA_aligned exB_aligned [0, 1] [0] [0, 1] [1] (by decide) (by decide) (by decide) (by decide)
+    (by decide) (by decide)).1, by decide +kernel, by decide +kernel⟩
+
+end Example
 
 /-! ## Dropping the permutation axis -/
 
